@@ -100,7 +100,9 @@ def _check_lookup(rt, entries, ref_routes, default_on: bool, dst: str, res: Case
                 clause = "lpm-not-longest-prefix"
             else:
                 clause = "lpm-not-lowest-metric"
-            res.violate(clause, f"{how}: dst {dst}: got {_fmt(got)}; valid answers {[_fmt(entries[i]) for i in valid]}")
+            res.violate(clause, f"{how}: dst {dst}: got {_fmt(got)}"
+                                + (f" (route #{got_i}, configured metric {ref_routes[got_i][2]})" if got_i is not None else "")
+                                + f"; valid answers {[_fmt(entries[i]) + f' (route #{i}, configured metric {ref_routes[i][2]})' for i in valid]}")
     else:
         if default_on:
             if got is not rt.default_route or got is None:
